@@ -140,6 +140,11 @@ func (es *ExpressionStatement) WriteTo(cw *CodeWriter) {
 	if es.Expression == nil {
 		return
 	}
+	// Without semicolons, a statement that begins with `(`, `[`, `-` or a backtick
+	// would continue the previous statement
+	if continuesPreviousStatement(es.Expression) {
+		cw.WriteOmittedSemi()
+	}
 	// A statement that begins with `{` or `function` would be read back as a
 	// block or a function declaration, so such expressions are parenthesised
 	if startsWithBraceOrFunction(es.Expression) {
@@ -148,6 +153,42 @@ func (es *ExpressionStatement) WriteTo(cw *CodeWriter) {
 		es.Expression.WriteTo(cw)
 	}
 	cw.WriteSemi()
+}
+
+// continuesPreviousStatement reports whether the first token printed for the
+// expression could be taken as a continuation of a preceding statement that
+// has no terminating semicolon.
+func continuesPreviousStatement(e Expression) bool {
+	for {
+		switch v := e.(type) {
+		case *GroupedExpression, *ArrayLiteral, *MultiStringLiteral:
+			return true
+		case *UnaryExpression:
+			return v.Operator == "-" || v.Operator == "+"
+		case *ObjectLiteral, *FunctionExpression:
+			return true // printed with parentheses
+		case *BinaryExpression:
+			if v.Left.Precedence() < v.Precedence() {
+				return true // printed with parentheses
+			}
+			e = v.Left
+		case *AssignmentExpression:
+			e = v.Left
+		case *CompoundAssignmentExpression:
+			e = v.Left
+		case *CallExpression:
+			e = v.Function
+		case *MemberExpression:
+			e = v.Object
+		case *PostfixExpression:
+			if v.Left.Precedence() < PrecedencePostfix {
+				return true // printed with parentheses
+			}
+			e = v.Left
+		default:
+			return false
+		}
+	}
 }
 
 // startsWithBraceOrFunction reports whether the first token printed for the
@@ -250,6 +291,8 @@ func (ifs *IfStatement) WriteTo(cw *CodeWriter) {
 	cw.WriteSpace()
 	ifs.ThenBranch.WriteTo(cw)
 	if ifs.ElseBranch != nil {
+		// `if (a) b else c` is not valid: a brace-less branch keeps its semicolon
+		cw.WriteOmittedSemi()
 		cw.WriteString(" else ")
 		ifs.ElseBranch.WriteTo(cw)
 	}
